@@ -420,16 +420,35 @@ def nodeStarts {DT Val : Type} (n : NodeOut DT Val) : Bool := n.errors.isEmpty
 /-! ## poll thread prologue (modulebase.py:726-737, 797-821) -/
 
 inductive Ev (Val : Type) where
-  | write (p : Name) (v : Val)      -- `write_<p>(v)` called (the wrapped method of the module)
+  /-- `write_<p>(v)` called by the poll thread; `also`: the entries of `writeDict` which the call consumed besides
+  its own (a common write handler pops the configured values of its siblings and sends everything at once) -/
+  | write (p : Name) (v : Val) (also : List (Name × Val))
   | firstPoll                       -- first `read_*` / `doPoll` round
-deriving DecidableEq, Repr
 
-/-- `writeInitParams`: every entry of `writeDict` is popped and handed to `write_<p>` -/
-def writeInitParams {DT Val : Type} (i : Instance DT Val) : List (Ev Val) :=
-  i.writeDict.map (fun kv => Ev.write kv.1 kv.2)
+/-- what a call of `write_<p>(v)` pops from the rest of `writeDict` (names; names not present are of no effect).
+A plain `write_<p>` consumes nothing; `rwhandler.CommonWriteHandler` consumes the keys its function asks for
+(`WriteParameters.__missing__`); a hand-written method may pop anything -/
+abbrev WriteOracle (Val : Type) := Name → Val → List (Name × Val) → List Name
 
-def prologue {DT Val : Type} (i : Instance DT Val) : List (Ev Val) :=
-  writeInitParams i ++ [Ev.firstPoll]
+/-- the loop of `writeInitParams` (modulebase.py:838-858):
+`for pname in list(self.writeDict): value = self.writeDict.pop(pname, Done); if value is not Done: write_<pname>(value)`
+— the names are a snapshot, the VALUES are taken from the live dict, an entry consumed meanwhile is skipped -/
+def writeLoop {Val : Type} (consumes : WriteOracle Val) : List Name → List (Name × Val) → List (Ev Val)
+  | [], _ => []
+  | p :: rest, wd =>
+    match lookup p wd with
+    | none => writeLoop consumes rest wd                   -- a handler has already done it
+    | some v =>
+      let wd1 := wd.filter (fun kv => kv.1 != p)
+      let gone := consumes p v wd1
+      Ev.write p v (wd1.filter (fun kv => gone.contains kv.1)) ::
+        writeLoop consumes rest (wd1.filter (fun kv => !gone.contains kv.1))
+
+def writeInitParams {DT Val : Type} (consumes : WriteOracle Val) (i : Instance DT Val) : List (Ev Val) :=
+  writeLoop consumes (i.writeDict.map (·.1)) i.writeDict
+
+def prologue {DT Val : Type} (consumes : WriteOracle Val) (i : Instance DT Val) : List (Ev Val) :=
+  writeInitParams consumes i ++ [Ev.firstPoll]
 
 /-! ## merging of config files (config.py:105-135, 186-215) -/
 
